@@ -564,6 +564,10 @@ class Rooms(Combinator[RoomsType]):
         width = env.width
         if height < 1 or width < 1:
             raise ValueError("board size must be positive")
+        # both border blocks have a fixed length; do not build anything for a truncated body
+        n_chars = (height * (width - 1) + 4) // 5 + ((height - 1) * width + 4) // 5
+        if len(data) - idx < n_chars:
+            raise ValueError("border data could not be deserialized")
 
         combinator = Tupl(
             Grid(MultiDigit(base=2, digits=5), height=height, width=width - 1),
@@ -752,6 +756,8 @@ def deserialize_problem_as_url(
     width = int(m[2])
     height = int(m[3])
     body = m[4]
+    if height < 1 or width < 1:
+        raise ValueError("board size must be positive")
 
     if allowed_puzzles is not None:
         if isinstance(allowed_puzzles, list):
